@@ -3,6 +3,7 @@ package c07
 
 import (
 	"bytes"
+	"context"
 	"encoding/json"
 	"errors"
 	"fmt"
@@ -576,8 +577,15 @@ func checkCLI(cc CLICase, bin, scratch string) (key, msg string, out uint64) {
 	}
 	args = append(args, cc.Args...)
 	args = append(args, "-o", outp)
-	cmd := exec.Command(bin, args...)
+	// generous horizon: a conversion of a small file takes milliseconds; a CLI that has not finished after two
+	// minutes is reported as hanging (e.g. a sub-command wired to the wrong operation looping forever)
+	ctx, cancel := context.WithTimeout(context.Background(), 2*time.Minute)
+	defer cancel()
+	cmd := exec.CommandContext(ctx, bin, args...)
 	cout, cerr := cmd.CombinedOutput()
+	if ctx.Err() != nil {
+		return "cli." + cc.Sub + ".hangs", fmt.Sprintf("astisub %s %v on %s did not finish within 2 minutes", cc.Sub, cc.Args, cc.Doc), 0
+	}
 	// library side
 	s, lerr := astisub.OpenFile(in)
 	if lerr != nil {
